@@ -27,6 +27,8 @@ pub enum RevOut {
     /// commit only: completed, but the terminal sent no status information
     CompletedNoStatus,
     Abort(u8),
+    /// abort that also carries a receipt number (BMP 87): None = echo of the request's, Some(r) = that number
+    AbortRcpt(u8, Option<u64>),
 }
 
 #[derive(Clone, Debug, PartialEq)]
@@ -154,11 +156,12 @@ pub fn build(cfg: &ClientCfg, steps: &[Step], cleanup_for: &dyn Fn(usize) -> Cle
                         RevOut::Completed => ExResult::Normal,
                         RevOut::CompletedNoStatus => ExResult::NoStatus,
                         RevOut::Abort(c) => ExResult::Abort(*c),
+                        RevOut::AbortRcpt(c, r) => ExResult::AbortWithReceipt(*c, *r),
                     };
                     sc.plan.push(call, Cmd::PartialReversal, ExPlan { result, ..ExPlan::default() });
                     let mut reqs = vec![Cmd::PartialReversal];
                     match out {
-                        RevOut::Abort(_) => Expect::Accepted { ok: false, requests: reqs, cleanup: false },
+                        RevOut::Abort(_) | RevOut::AbortRcpt(..) => Expect::Accepted { ok: false, requests: reqs, cleanup: false },
                         _ => {
                             let mut ok = *out == RevOut::Completed;
                             let mut cleanup = false;
@@ -179,12 +182,13 @@ pub fn build(cfg: &ClientCfg, steps: &[Step], cleanup_for: &dyn Fn(usize) -> Cle
                     model.open.remove(t);
                     let result = match out {
                         RevOut::Abort(c) => ExResult::Abort(*c),
+                        RevOut::AbortRcpt(c, r) => ExResult::AbortWithReceipt(*c, *r),
                         _ => ExResult::Normal,
                     };
                     sc.plan.push(call, Cmd::PreAuthReversal, ExPlan { result, ..ExPlan::default() });
                     let mut reqs = vec![Cmd::PreAuthReversal];
                     match out {
-                        RevOut::Abort(_) => Expect::Accepted { ok: false, requests: reqs, cleanup: false },
+                        RevOut::Abort(_) | RevOut::AbortRcpt(..) => Expect::Accepted { ok: false, requests: reqs, cleanup: false },
                         _ => {
                             let mut ok = true;
                             let mut cleanup = false;
@@ -309,7 +313,7 @@ pub fn judge(r: &mut Report, prop: &str, steps: &[Step], b: &Built, tr: &Trace) 
                 }
                 if prop == "C19" {
                     let own_completed = match st {
-                        Step::Commit(_, _, o) | Step::Cancel(_, o) => !matches!(o, RevOut::Abort(_)),
+                        Step::Commit(_, _, o) | Step::Cancel(_, o) => !matches!(o, RevOut::Abort(_) | RevOut::AbortRcpt(..)),
                         _ => false,
                     };
                     if matches!(st, Step::Commit(..) | Step::Cancel(..)) && own_completed {
@@ -411,7 +415,7 @@ fn enumerate(depth: usize, max_tx: usize, out: &mut Vec<Vec<Step>>) {
             }
             // commit / cancel
             for commit in [true, false] {
-                let outs: Vec<RevOut> = if is_open { vec![RevOut::Completed, RevOut::Abort(if commit { 0xb5 } else { 0xb4 })] } else { vec![RevOut::Completed] };
+                let outs: Vec<RevOut> = if is_open { vec![RevOut::Completed, RevOut::Abort(if commit { 0xb5 } else { 0xb4 }), RevOut::AbortRcpt(0xb8, None)] } else { vec![RevOut::Completed] };
                 for o in outs {
                     let amount = 100 * (cur.len() as u64 + 1);
                     cur.push(if commit { Step::Commit(t.clone(), amount, o.clone()) } else { Step::Cancel(t.clone(), o.clone()) });
@@ -451,13 +455,29 @@ fn random_walk(rng: &mut Rng, len: usize) -> Vec<Step> {
                 4..=6 => Step::Commit(
                     t,
                     rng.below(5000),
-                    match rng.below(6) {
+                    match rng.below(7) {
                         0 => RevOut::Abort(rng.byte()),
                         1 => RevOut::CompletedNoStatus,
+                        2 => {
+                            let rb = rng.byte();
+                            let code = *rng.pick(&[0xb8u8, 0xb4, 0xb5, 0x9c, 0x6c, 0xa0, rb]);
+                            RevOut::AbortRcpt(code, *rng.pick(&[None, Some(0xffff), Some(231), Some(232)]))
+                        }
                         _ => RevOut::Completed,
                     },
                 ),
-                _ => Step::Cancel(t, if rng.chance(1, 6) { RevOut::Abort(rng.byte()) } else { RevOut::Completed }),
+                _ => Step::Cancel(
+                    t,
+                    match rng.below(8) {
+                        0 => RevOut::Abort(rng.byte()),
+                        1 => {
+                            let rb = rng.byte();
+                            let code = *rng.pick(&[0xb8u8, 0xb4, 0xb5, 0x9c, rb]);
+                            RevOut::AbortRcpt(code, *rng.pick(&[None, Some(0xffff), Some(231)]))
+                        }
+                        _ => RevOut::Completed,
+                    },
+                ),
             }
         })
         .collect()
@@ -477,7 +497,7 @@ pub fn run(ctx: &Ctx, id: &str) -> i32 {
     };
     let n_walks = ctx.by(4_000usize, 200_000usize);
     report.rule = if id == "C07" {
-        format!("call histories of begin/commit/cancel over tokens {{a,b,c}} (tokens introduced in this order: symmetry), model-guided bounded-exhaustive: every history of exactly {depth} calls with every terminal outcome (reservation: success / abort / missing receipt / abort after a status information that already carried a receipt number; reversal: completed / abort) branched where the model accepts the call, x transactions_max_num 0..3; then a probe suffix cancel(a), cancel(b), cancel(c); plus {n_walks} random walks to depth 40 with empty / 99-byte / non-ASCII tokens and max 0..4. Oracle: sequential client model (D.3) for the result class, 'refused => no request and no connection', 'commit/cancel carry the receipt number the terminal issued for that token', and the hook snapshot of the client's map after every call. Non-trivial = history with at least one accepted call; distinct by hash of (history, max).")
+        format!("call histories of begin/commit/cancel over tokens {{a,b,c}} (tokens introduced in this order: symmetry), model-guided bounded-exhaustive: every history of exactly {depth} calls with every terminal outcome (reservation: success / abort / missing receipt / abort after a status information that already carried a receipt number; reversal: completed / abort / abort B8 echoing the request's receipt number) branched where the model accepts the call, x transactions_max_num 0..3; then a probe suffix cancel(a), cancel(b), cancel(c); plus {n_walks} random walks to depth 40 with empty / 99-byte / non-ASCII tokens and max 0..4. Additionally: every abort code 0..255 x {{no receipt, own receipt echoed, FFFF, another receipt}} for commit and cancel with one and two open transactions, and a link fault (close/garbage/NACK/foreign/silence) at every packet of the reservation exchange followed by commit/cancel (the token must map to the receipt of the reservation that completed). Oracle: sequential client model (D.3) for the result class, 'refused => no request and no connection', 'commit/cancel carry the receipt number the terminal issued for that token', and the hook snapshot of the client's map after every call. Non-trivial = history with at least one accepted call; distinct by hash of (history, max).")
     } else {
         format!("the C07 histories (exactly {depth} calls, max 1..3) and {n_walks} random walks, each run under a clean-up behaviour chosen per scenario: pending query reports {{no receipt field, FFFF, a dangling receipt}}, reversal of the dangling receipt {{completes, aborts}}, end-of-day {{completion, abort A0, every other abort code in turn (quick: A0 + 8 others per seed)}}, with intermediate/print packets inside the end-of-day exchange. Oracle (temporal checker over the request log per call): a commit/cancel the terminal completed that leaves no token open is followed by exactly PendingQuery -> PreAuthReversal(d) iff d reported -> EndOfDay(password); result Ok on completion/A0, error otherwise; with tokens remaining no PendingQuery/EndOfDay. Non-trivial = history containing at least one completed commit/cancel; distinct by hash of (history, max, clean-up behaviour).")
     };
@@ -576,6 +596,66 @@ pub fn run(ctx: &Ctx, id: &str) -> i32 {
             let steps = random_walk(&mut rng, len);
             let max_tx = rng.below(5) as usize;
             run_one(r, &mut rng, max_tx, steps, w);
+        }
+        // every abort code x {no receipt, the request's own receipt, FFFF, another receipt} for commit and for cancel,
+        // with one and with two transactions open: the token must be closed whatever the terminal says
+        for code in (0..=255u8).filter(|c| *c as usize % threads == shard) {
+            for rcpt in [None, Some(None), Some(Some(0xffffu64)), Some(Some(232u64))] {
+                let out = match rcpt {
+                    None => RevOut::Abort(code),
+                    Some(r) => RevOut::AbortRcpt(code, r),
+                };
+                for commit in [true, false] {
+                    for two in [false, true] {
+                        let mut steps = vec![Step::Begin("a".into(), BeginOut::Success)];
+                        if two {
+                            steps.push(Step::Begin("b".into(), BeginOut::Success));
+                        }
+                        steps.push(if commit { Step::Commit("a".into(), 700, out.clone()) } else { Step::Cancel("a".into(), out.clone()) });
+                        if two {
+                            steps.push(Step::Cancel("b".into(), RevOut::Completed));
+                        }
+                        steps.push(Step::Begin("c".into(), BeginOut::Success));
+                        run_one(r, &mut rng, if two { 2 } else { 1 }, steps, code as usize);
+                        r.count("abort_code_sweep_histories", 1);
+                    }
+                }
+            }
+        }
+        // a link fault at every packet of the reservation exchange: the client re-sends the reservation, the terminal
+        // issues another receipt number; begin must record the receipt of the reservation that completed
+        if id == "C07" {
+            for kind in [FaultKind::Close, FaultKind::Garbage, FaultKind::Nack, FaultKind::Foreign, FaultKind::Silence] {
+                for p in (0..5usize).filter(|p| (*p + kind as usize) % threads == shard % threads || threads > 25) {
+                    let cfg = ClientCfg { max_tx: 1, ..ClientCfg::default() };
+                    let mut sc = Scenario { cfg: cfg.clone(), ..Scenario::default() };
+                    sc.calls = vec![Call::Begin("a".into()), Call::Commit("a".into(), 100), Call::Begin("b".into()), Call::Cancel("b".into())];
+                    for call in [2usize, 4] {
+                        for _ in 0..2 {
+                            sc.plan.push(call, Cmd::Reservation, ExPlan { pre: vec![Pre::Intermediate { status: 0x0e, timeout: 0 }], ..ExPlan::default() });
+                        }
+                        sc.plan.faults.push(FaultSpec { call, at: At::Tx(p), kind });
+                    }
+                    let tr = run_scenario(&sc, &schema);
+                    r.case(fnv(format!("begin-under-fault {kind:?} {p}").as_bytes()), true);
+                    r.count("begin_under_fault_scenarios", 1);
+                    for (tok, begin_call, use_call, cmd) in [("a", 2usize, 3usize, Cmd::PartialReversal), ("b", 4, 5, Cmd::PreAuthReversal)] {
+                        let began = tr.calls.iter().find(|c| c.index == begin_call).map(|c| c.result.is_ok()).unwrap_or(false);
+                        let issued = tr.ledger.iter().rev().find(|x| x.token == tok).map(|x| x.receipt);
+                        let used = tr.requests.iter().find(|q| q.call == use_call && q.cmd == cmd).and_then(|q| q.val.field("receipt_no").and_then(|x| x.num())).map(|x| x as u64);
+                        let hook = tr.calls.iter().find(|c| c.index == begin_call).and_then(|c| c.open_after.clone()).and_then(|m| m.iter().find(|(k, _)| k == tok).map(|(_, v)| *v as u64));
+                        if began && (used != issued || hook != issued) {
+                            let mut c = case_json(&sc, &tr);
+                            c["note"] = json!("link fault during the reservation; the client re-sent it");
+                            r.violation(
+                                "C07 begin: after a re-sent reservation the token is not mapped to the receipt number of the reservation that completed",
+                                &format!("{kind:?} at packet {p} of begin({tok}): terminal's last reservation for the token has receipt {issued:?}, the client recorded {hook:?} and later acted on {used:?}"),
+                                c,
+                            );
+                        }
+                    }
+                }
+            }
         }
     });
     report.finish()
